@@ -1,11 +1,14 @@
 #!/bin/bash
 # usage: tools/seed_confirm.sh <Cxx> <k> [more property ids to run the checks of]
+#   env SEED_SRC=<dir with patch.diff, demo_test.go, notes.md> (default /tmp/wt/<Cxx>/OUT/<k>)
+#   env CHECK_REPO=<tree the checks are run against with the patch applied> (default /repo)
 # Confirms a sub-agent's seeded change in a scratch worktree (compiles, suite passes,
 # demo fails with / passes without), stores it under /verif/seeded/<Cxx>-<k>/ and runs
 # the property's check against /repo with the patch applied (undone straight afterwards).
 set -u
 P="$1"; K="$2"; shift 2
-SRC=/tmp/wt/$P/OUT/$K
+SRC="${SEED_SRC:-/tmp/wt/$P/OUT/$K}"
+CR="${CHECK_REPO:-/repo}"
 DST=/verif/seeded/$P-$K
 export GOFLAGS=-mod=mod GOPROXY=off GOSUMDB=off GOTOOLCHAIN=local; unset GOWORK
 [ -f "$SRC/patch.diff" ] || { echo "no patch in $SRC"; exit 2; }
@@ -39,16 +42,16 @@ res "demo without change: $DEMO_WITHOUT (expected pass)"
 cd /; git -C /repo worktree remove --force "$W"
 # run the checks against /repo with the patch applied
 cd /verif
-git -C /repo apply "$DST/patch.diff" || { res "apply to /repo FAILED"; exit 1; }
+git -C "$CR" apply "$DST/patch.diff" || { res "apply to $CR FAILED"; exit 1; }
 DET=""
 for id in $P "$@"; do
-  OUT=$(./check $id quick 2>&1); RC=$?
+  OUT=$(VERIF_REPO="$CR" ./check $id quick 2>&1); RC=$?
   echo "$OUT" | grep -v "^  rule\|^analysed\|^rdpgwlint" | head -12 > "$DST/check_$id.out"
   res "check $id: exit $RC"
   [ $RC -eq 1 ] && DET="$DET $id"
 done
-git -C /repo checkout -q -- .
-git -C /repo status --short | grep -q . && res "WARNING: /repo not clean after undo"
+git -C "$CR" apply -R "$DST/patch.diff" || git -C "$CR" checkout -q -- .
+git -C "$CR" status --short | grep -q . && res "WARNING: $CR not clean after undo"
 res "detected_by:$DET"
 python3 - "$P" "$K" "$DST" "$DEMO_WITH" "$DEMO_WITHOUT" "$DET" <<'PY'
 import json,sys,os
